@@ -448,12 +448,66 @@ Definition tok_length (t : tok) : list Z :=
   | _ => []
   end.
 
-(* `l` + length.  The reader first looks for ".onNote" etc.: a length that STARTS with '.' (a dotted default, "l.")
-   loses that dot - and a word directly after it - to that test; hence the proviso *)
-Theorem read_length_len tb e r ln : expr_wf e = true -> len_boundary r = true -> eq_char (print e ++ r) 46 = false ->
+(* `l` + length.  "l." + one of the words Random onTime T onNote N onCycle C is the reservation syntax (l.onNote(..));
+   with any other word - or none - after the dot the reader goes back to the dot, which then belongs to the length
+   ("l." = the dotted default length; /repo eb20c24).  l_dot_ok: the text does not start with '.', or the word after that
+   dot is none of these words.  It holds for every length that does not consist of the one dot alone (l_dot_ok_auto). *)
+Module LDotDefs.
+  Import Coq.Strings.String.
+  Definition l_res_word (w : list Z) : bool :=
+    list_eqb w (zs "Random"%string) || is_w w "onTime"%string "T"%string || is_w w "onNote"%string "N"%string
+    || is_w w "onCycle"%string "C"%string.
+End LDotDefs.
+Definition l_res_word := LDotDefs.l_res_word.
+Definition l_dot_ok (s : list Z) : bool := negb (eq_char s 46) || negb (l_res_word (fst (get_word (tl s)))).
+
+Theorem read_length_len tb e r ln : expr_wf e = true -> len_boundary r = true -> l_dot_ok (print e ++ r) = true ->
   read_length tb (print e ++ r) ln = Ok (Some (TLength (print e)), r, ln).
 Proof.
-  intros W B D. unfold read_length. unfold c_DOT. rewrite D. rewrite (len_token_boundary e r ln W B). reflexivity.
+  intros W B D. unfold read_length. unfold c_DOT. unfold l_dot_ok in D.
+  destruct (eq_char (print e ++ r) 46) eqn:E.
+  - cbn [negb orb] in D. apply negb_true_iff in D. destruct (get_word (tl (print e ++ r))) as [cmd s1]. cbn [fst] in D.
+    unfold l_res_word, LDotDefs.l_res_word in D. apply orb_false_elim in D. destruct D as [D D4]. apply orb_false_elim in D. destruct D as [D D3].
+    apply orb_false_elim in D. destruct D as [D1 D2]. rewrite D1, D2, D3, D4. cbn [orb].
+    rewrite (len_token_boundary e r ln W B). reflexivity.
+  - rewrite (len_token_boundary e r ln W B). reflexivity.
+Qed.
+
+(* a text that starts with '.' and goes on with a character that is not a word character: the word after the dot is empty *)
+Lemma l_dot_ok_nonword c x : is_word_char c = false -> c <> 35 -> l_dot_ok (46 :: c :: x) = true.
+Proof.
+  intros H N. unfold l_dot_ok. cbn [eq_char tl]. change (46 =? 46) with true. cbn [negb orb].
+  assert (G : fst (get_word (c :: x)) = []).
+  { unfold get_word. destruct (Z.eq_dec c 35) as [->|_]; [contradiction|].
+    replace (match c :: x with 35 :: r => let '(w, r') := take_word r in (35 :: w, r') | _ => take_word (c :: x) end)
+      with (take_word (c :: x)).
+    - cbn [take_word]. rewrite H. reflexivity.
+    - destruct c as [|q|q]; try reflexivity. do 6 (destruct q as [q|q|]; try reflexivity). contradiction. }
+  rewrite G. reflexivity.
+Qed.
+Theorem l_dot_ok_auto e r : expr_wf e = true -> len_boundary r = true -> print e <> [46] -> l_dot_ok (print e ++ r) = true.
+Proof.
+  intros W B NE. unfold l_dot_ok. destruct (eq_char (print e ++ r) 46) eqn:E; [|reflexivity].
+  fold (l_dot_ok (print e ++ r)).
+  destruct e as [h ps]. unfold print in *. cbn [fst snd] in *.
+  unfold expr_wf, head_wf in W. cbn [fst snd] in W. apply andb_true_iff in W. destruct W as [Wh _].
+  pose proof (atom_wf_digits h Wh) as Dg. unfold print_atom in *.
+  destruct (a_step h); [discriminate E|]. destruct (a_neg h); [discriminate E|]. cbn [app] in *.
+  destruct (a_num h) as [|d ds].
+  - cbn [map app] in *. destruct (a_dots h) as [|k].
+    + cbn [repeat app] in *. destruct ps as [|[[|] a] ps'].
+      * cbn [flat_map app] in E. unfold len_boundary in B. destruct r as [|c r']; [discriminate E|].
+        cbn [eq_char] in E. apply Z.eqb_eq in E. subst c. discriminate B.
+      * discriminate E.
+      * discriminate E.
+    + cbn [repeat app]. destruct k as [|k].
+      * cbn [repeat app] in *. destruct ps as [|[[|] a] ps'].
+        -- contradiction NE. reflexivity.
+        -- cbn [flat_map print_part fst app]. apply l_dot_ok_nonword; [reflexivity|discriminate].
+        -- cbn [flat_map print_part fst app]. apply l_dot_ok_nonword; [reflexivity|discriminate].
+      * cbn [repeat app]. apply l_dot_ok_nonword; [reflexivity|discriminate].
+  - cbn [map app forallb] in *. apply andb_true_iff in Dg. destruct Dg as [Dg _]. pose proof (digit_ok_range d Dg).
+    cbn [eq_char] in E. apply Z.eqb_eq in E. lia.
 Qed.
 
 (* `r` + length.  '*' and '-' directly after the r are read by the rest command itself ("r-4" is a backward rest) *)
@@ -498,7 +552,7 @@ Proof.
 Qed.
 
 (* `l` + expression: the default length of the track becomes denote tb tb e (omitted parts mean a quarter note) *)
-Theorem length_in_program ec tb e r ln s : expr_wf e = true -> len_boundary r = true -> eq_char (print e ++ r) 46 = false ->
+Theorem length_in_program ec tb e r ln s : expr_wf e = true -> len_boundary r = true -> l_dot_ok (print e ++ r) = true ->
   cur_valid s ->
   exists t, read_length tb (print e ++ r) ln = Ok (Some t, r, ln) /\ t = TLength (print e) /\
   exists s', step_song ec t s = Ok s' /\ tr_length (cur_track s') = denote (s_timebase s) (s_timebase s) e /\
